@@ -352,10 +352,18 @@ def unesc(s):
 
 def analyse(cases, impl, model):
     """classify every case; returns a dict of the accumulated results"""
+    # the local proposals apply until the main session has decided: an entry of known-findings.json with the same id
+    # overrides the proposal ("fixed" removes it: a regression is then a violation)
     known = {e["key"]: e for e in PROPOSED_KNOWN}
+    by_id = {e["id"]: e["key"] for e in PROPOSED_KNOWN}
     for e in vlib.load_known(PID):
-        if e.get("status") == "known" and e.get("key"):
-            known[e["key"]] = e
+        key = e.get("key") or by_id.get(e.get("id"))
+        if not key:
+            continue
+        if e.get("status") == "known":
+            known[key] = dict(e, key=key)
+        else:
+            known.pop(key, None)
     known_hits = {}
     disagreements, prop_fail = [], []
     kinds, statuses = {}, {}
@@ -491,8 +499,8 @@ def run(res, tier, seed, replay):
         reencode_status=statuses, trees_checked_resource_free=trees_checked,
         encoder_failures_independent_of_mode=general_encoder,
         distinct_nontrivial=len(nontriv),
-        rule="one case = one valid component (quick: 11 fixed shapes + corpus + ~150 generated WIT worlds + ~60 shaped WAT; "
-             "thorough x10). non-trivial = distinct validator graphs whose decoded world has a `uses` entry, an aliased "
+        rule="one case = one valid component (11 fixed shapes + corpus + generated WIT worlds + shaped WAT: quick 150+60, "
+             "thorough 6000+2500, minus sources the reference tools reject). non-trivial = distinct validator graphs whose decoded world has a `uses` entry, an aliased "
              "resource, or a module/component/value/instance-type/component-type item. " + harness_note,
         samples=[unesc(c.split("\t")[3])[:600] for c in cases[ncorpus:ncorpus + 2] + cases[-1:]],
         trusted_base=vlib.TRUSTED_COMMON + [
